@@ -73,6 +73,21 @@ func (core *JApiCore) buildUserTypes() *jerr.JApiError {
 		return adoptError(err)
 	}
 
+	// Add rules to every type before any of them is loaded: a loaded schema
+	// does not accept rules anymore, and a type is loaded as soon as a type
+	// which uses it is processed.
+	err = core.userTypes.Each(func(n string, ut schema.Schema) error {
+		for rn, r := range core.rules {
+			if err := ut.AddRule(rn, r); err != nil {
+				return jschemaToJAPIError(err, core.rawUserTypes.GetValue(n))
+			}
+		}
+		return nil
+	})
+	if err != nil {
+		return adoptError(err)
+	}
+
 	err = core.userTypes.Each(func(n string, _ schema.Schema) error {
 		return core.compileUserTypeWithAllDependencies(n)
 	})
@@ -92,14 +107,6 @@ func (core *JApiCore) compileUserTypeWithAllDependencies(name string) error {
 	}
 
 	dd := core.rawUserTypes
-
-	// Add rules before we try to do something with the type.
-	for n, r := range core.rules {
-		if err := currUT.AddRule(n, r); err != nil {
-			// The schema of the type is loaded here: the error belongs to the type.
-			return jschemaToJAPIError(err, dd.GetValue(name))
-		}
-	}
 
 	tt, err := fetchUsedUserTypes(currUT, core.userTypes)
 	if err != nil {
